@@ -21,7 +21,10 @@ fn strip_ws(s: &str) -> String {
 /// Whitespace-erasure oracle; returns a violation signature + detail.
 fn check_erasure(input: &str) -> Result<String, (String, String)> {
     match guarded(|| format_type_description(input)) {
-        Err(p) => Err(("C15/panic".into(), format!("format_type_description({input:?}) panics: {p}"))),
+        Err(p) => Err((
+            "C15/panic".into(),
+            format!("format_type_description({input:?}) panics: {p}"),
+        )),
         Ok(out) => {
             if strip_ws(&out) != strip_ws(input) {
                 Err((
@@ -65,7 +68,8 @@ pub fn check_indentation(out: &str) -> Result<(), String> {
                 let next = cs.get(j).copied();
                 let open_broken = stack.iter().filter(|b| **b).count();
                 let mut expected = 4 * open_broken;
-                if matches!(next, Some('}') | Some(')') | Some('>')) && stack.last() == Some(&true) {
+                if matches!(next, Some('}') | Some(')') | Some('>')) && stack.last() == Some(&true)
+                {
                     expected -= 4;
                 }
                 if next == Some('{') {
@@ -127,7 +131,15 @@ impl Collector {
             }
         }
     }
-    fn into_stats(self, name: &str, depth: u32, start: Instant, exhaustive: bool, cap: Option<String>, samples: Vec<String>) -> Stats {
+    fn into_stats(
+        self,
+        name: &str,
+        depth: u32,
+        start: Instant,
+        exhaustive: bool,
+        cap: Option<String>,
+        samples: Vec<String>,
+    ) -> Stats {
         let states = self.states.load(Ordering::Relaxed);
         Stats {
             driver: name.into(),
@@ -195,7 +207,14 @@ fn family_all(n: usize, wall: Duration) -> Stats {
         }
     }
     col.transitions.fetch_add(9, Ordering::Relaxed);
-    fn dfs(buf: &mut Vec<u8>, n: usize, col: &Collector, local: &mut (u64, u64, std::collections::HashSet<u64>), start: Instant, wall: Duration) {
+    fn dfs(
+        buf: &mut Vec<u8>,
+        n: usize,
+        col: &Collector,
+        local: &mut (u64, u64, std::collections::HashSet<u64>),
+        start: Instant,
+        wall: Duration,
+    ) {
         if col.stop.load(Ordering::Relaxed) {
             return;
         }
@@ -236,7 +255,13 @@ fn family_all(n: usize, wall: Duration) -> Stats {
         n as u32,
         start,
         !capped,
-        if capped { Some(format!("wall cap {wall:?} hit; enumeration of length <= {n} incomplete")) } else { None },
+        if capped {
+            Some(format!(
+                "wall cap {wall:?} hit; enumeration of length <= {n} incomplete"
+            ))
+        } else {
+            None
+        },
         vec!["".into(), "a<( ,}".into(), "{a,(a)}".into()],
     )
 }
@@ -350,13 +375,18 @@ fn family_nested(n: usize, wall: Duration) -> Stats {
                 Err((sig, d)) => col.violation(sig, d, s),
                 Ok(out) => {
                     if let Err(e) = check_indentation(&out) {
-                        col.violation("C15/indentation".into(), format!("{s:?} -> {out:?}: {e}"), s);
+                        col.violation(
+                            "C15/indentation".into(),
+                            format!("{s:?} -> {out:?}: {e}"),
+                            s,
+                        );
                     }
                 }
             }
         }
         col.states.fetch_add(local.0, Ordering::Relaxed);
-        col.transitions.fetch_add(5 + seeds.len() as u64, Ordering::Relaxed);
+        col.transitions
+            .fetch_add(5 + seeds.len() as u64, Ordering::Relaxed);
     }
     seeds.par_iter().for_each(|(b, s)| {
         let feasible = b.len() + s.len() <= n;
@@ -535,7 +565,11 @@ fn family_deep(dmax: usize, wall: Duration) -> Stats {
             Ok(out) => {
                 col.outcomes.lock().unwrap().insert(outcome_class(&out));
                 if let Err(e) = check_indentation(&out) {
-                    col.violation("C15/indentation".into(), format!("format_type_description({input:?}) = {out:?}: {e}"), &input);
+                    col.violation(
+                        "C15/indentation".into(),
+                        format!("format_type_description({input:?}) = {out:?}: {e}"),
+                        &input,
+                    );
                 }
             }
         }
@@ -561,14 +595,20 @@ fn family_descriptions(wall: Duration) -> Stats {
     let ids: Vec<u32> = (0..reg.types.len() as u32).collect();
     let mut inputs: Vec<String> = ids
         .par_iter()
-        .filter_map(|id| guarded(|| scale_typegen_description::type_description(*id, &reg, false).ok()).ok().flatten())
+        .filter_map(|id| {
+            guarded(|| scale_typegen_description::type_description(*id, &reg, false).ok())
+                .ok()
+                .flatten()
+        })
         .collect();
     for leaf in arms_leaves() {
         for w in arms_wrappers(&leaf) {
             let p = arms_program(&w, Position::NamedVariant, false, "N");
             let e = crate::spm::elaborate(&p);
             for id in 0..e.registry.types.len() as u32 {
-                if let Ok(Ok(d)) = guarded(|| scale_typegen_description::type_description(id, &e.registry, false)) {
+                if let Ok(Ok(d)) =
+                    guarded(|| scale_typegen_description::type_description(id, &e.registry, false))
+                {
                     inputs.push(d);
                 }
             }
@@ -613,16 +653,45 @@ pub fn run(tier: &str, seed: u64) -> i32 {
     let thorough = tier == "thorough";
     let mut report = Report::new("C15", tier, seed, "model_checking");
     let (n_all, n_nested) = if thorough { (10, 14) } else { (8, 11) };
-    report.add(family_all(n_all, Duration::from_secs(if thorough { 1500 } else { 150 })));
-    report.add(family_nested(n_nested, Duration::from_secs(if thorough { 900 } else { 150 })));
+    report.add(family_all(
+        n_all,
+        Duration::from_secs(if thorough { 1500 } else { 150 }),
+    ));
+    report.add(family_nested(
+        n_nested,
+        Duration::from_secs(if thorough { 900 } else { 150 }),
+    ));
     if thorough {
-        report.add(family_macro(2, &[0, 1, 29, 30, 31, 32, 33], true, Duration::from_secs(600)));
-        report.add(family_macro(3, &[0, 1, 30, 31, 32], false, Duration::from_secs(900)));
+        report.add(family_macro(
+            2,
+            &[0, 1, 29, 30, 31, 32, 33],
+            true,
+            Duration::from_secs(600),
+        ));
+        report.add(family_macro(
+            3,
+            &[0, 1, 30, 31, 32],
+            false,
+            Duration::from_secs(900),
+        ));
     } else {
-        report.add(family_macro(2, &[0, 1, 29, 30, 31, 32, 33], false, Duration::from_secs(30)));
-        report.add(family_macro(1, &[0, 1, 29, 30, 31, 32, 33], true, Duration::from_secs(10)));
+        report.add(family_macro(
+            2,
+            &[0, 1, 29, 30, 31, 32, 33],
+            false,
+            Duration::from_secs(30),
+        ));
+        report.add(family_macro(
+            1,
+            &[0, 1, 29, 30, 31, 32, 33],
+            true,
+            Duration::from_secs(10),
+        ));
     }
-    report.add(family_deep(if thorough { 13 } else { 10 }, Duration::from_secs(if thorough { 600 } else { 60 })));
+    report.add(family_deep(
+        if thorough { 13 } else { 10 },
+        Duration::from_secs(if thorough { 600 } else { 60 }),
+    ));
     report.add(family_descriptions(Duration::from_secs(120)));
     report.assumptions = vec![
         "termination is observed as completion of every call inside the run's wall budget (the formatter consumes one input character per loop iteration)".into(),
@@ -634,7 +703,12 @@ pub fn run(tier: &str, seed: u64) -> i32 {
 pub fn replay(input: &str) -> Vec<Violation> {
     let mut out = vec![];
     match check_erasure(input) {
-        Err((sig, d)) => out.push(Violation { sig, detail: d, replay: json!({"check":"C15","input":input}), size: input.len() }),
+        Err((sig, d)) => out.push(Violation {
+            sig,
+            detail: d,
+            replay: json!({"check":"C15","input":input}),
+            size: input.len(),
+        }),
         Ok(o) => {
             // indentation clause applies to properly nested whitespace-free input
             let balanced = {
@@ -653,7 +727,12 @@ pub fn replay(input: &str) -> Vec<Violation> {
             };
             if balanced {
                 if let Err(e) = check_indentation(&o) {
-                    out.push(Violation { sig: "C15/indentation".into(), detail: format!("{input:?} -> {o:?}: {e}"), replay: json!({"check":"C15","input":input}), size: input.len() });
+                    out.push(Violation {
+                        sig: "C15/indentation".into(),
+                        detail: format!("{input:?} -> {o:?}: {e}"),
+                        replay: json!({"check":"C15","input":input}),
+                        size: input.len(),
+                    });
                 }
             }
         }
